@@ -30,4 +30,23 @@ PROPS = {
         "assumptions": ["the text of the multi-line excerpt is validated by the POS channel and the implementation predicate, not proved",
                         "fmt's %3d / %d formatting is modelled (pad3, decimal) and validated by the POS channel"],
     },
+    "C12": {
+        "module": "MF.Props.C12",
+        "theorems": ["MF.Props.C12.fails_iff_lexical_error", "MF.Props.C12.pieces_ok_partial", "MF.Props.C12.never_crashes"],
+        "channels": ["SPLIT", "LEX"],
+        "pred": True,
+        "level": "proof",
+        "trusted_base": M0_TRUST + ["hand-written model MF/Model/Split.lean of split.go"],
+        "assumptions": ["the token-level clauses (no ';' inside a piece, exactly one ';' plus whitespace between pieces, every token and comment in exactly one piece) are evaluated on the implementation and tied by the SPLIT channel; not proved in Lean (partial)"],
+    },
+    "C03": {
+        "module": "MF.Props.C03",
+        "theorems": ["MF.Props.C03.lexer_never_panics", "MF.Props.C03.lexer_error_in_range", "MF.Props.C03.recovery_lexer_total",
+                     "MF.Props.C03.cursor_invariant", "MF.Props.C03.lexer_terminates", "MF.Props.C03.splitter_total"],
+        "channels": ["LEX", "SPLIT", "POS"],
+        "pred": True,
+        "level": "proof",
+        "trusted_base": M0_TRUST + ["hand-written model MF/Model/Split.lean of split.go"],
+        "assumptions": ["termination and absence of runtime panics in parser.go outside the modelled core are not proved: every Parse* call of the predicate runs under recover and a 5 s deadline (partial)"],
+    },
 }
